@@ -358,10 +358,20 @@ def has_empty_node(o, root=True):
     return any(has_empty_node(v, False) for v in o["ents"].values())
 
 
+def any_locked(o):
+    if isinstance(o, list):
+        return False
+    if o.get("locked"):
+        return True
+    kids = o.get("members", []) if "members" in o else o["ents"].values()
+    return any(any_locked(v) for v in kids)
+
+
 def cons_info(td, o):
     """facts about one consolidate() call, computed from its input (they are the patterns of the known findings)"""
     return {"threads": o.get("num_threads") or 0, "file": bool(o.get("file")), "use_buffer": bool(o.get("file") and o.get("use_buffer")),
-            "src_locked": bool(td.is_locked), "src_dev": None if td.device is None else str(td.device),
+            "inplace": bool(o.get("inplace")),
+            "src_locked": any_locked(obs(td)), "src_dev": None if td.device is None else str(td.device),
             "unviewable": unviewable(td), "misaligned16": misaligned16(td)}
 
 
@@ -371,6 +381,7 @@ def run_case(case, plan, on_result):
     with Scratch() as scratch:
         td = I.build(case["tree"])
         log = []          # (op, outcome)
+        cons_infos = []   # one per consolidate step
         last_cons = None  # index in log of the consolidation that produced the live object
         cons = None       # its cons_info
         for op in case["ops"]:
@@ -380,6 +391,12 @@ def run_case(case, plan, on_result):
                 ci = cons_info(td, op[1])
                 r = call(lambda: I.do_consolidate(td, op[1], scratch))
                 ctx = {"step": len(log), "already_consolidated": was_cons, "post_ops": [], "cons": ci, "consolidated": was_cons}
+                ci["effective"] = r[0] == "ok" and not was_cons
+                cons_infos.append(ci)
+                if r[0] != "ok" and ci["inplace"] and ci["src_locked"] and "locked" in r[1]:
+                    # consolidate(inplace=True) rebinds the entries of self: refused on a locked tensordict (not a failure)
+                    log.append((op, r[1]))
+                    continue
                 if r[0] == "ok":
                     after = obs(r[1])
                     if not op[1].get("file"):
@@ -405,6 +422,8 @@ def run_case(case, plan, on_result):
                    "cons": cons_info(td, dict(opt, file=fmt == "consolidate_file")) if fmt.startswith("consolidate") and not is_cons else cons,
                    "meta_misaligned16": meta_misaligned16(td)}
             r = call(lambda: FORMATS[fmt][0](td, scratch, opt))
+            if r[0] != "ok" and fmt == "consolidate" and opt.get("inplace") and before["locked"] and "locked" in r[1]:
+                continue
             if r[0] == "ok":
                 rr = call(lambda: obs(r[1]))
                 if rr[0] == "ok":
@@ -417,6 +436,7 @@ def run_case(case, plan, on_result):
             again = obs(td)
             if again != before:
                 on_result(fmt + ":source-changed", opt, before, "ok", again, ctx, None)
+        log.append(("cons_infos", cons_infos, last_cons, cons))
         return td, log
 
 
@@ -684,13 +704,15 @@ def exec_case(case, plan):
             mops.append(m)
             td, _ = I.apply_op(td, op, scratch)
     td, log = run_case(case, plan, on_result)
-    # known silent-corruption / unsupported configurations are outside the correspondence (the oracle still judges them)
-    for (fmt, opt, before, outcome, after, ctx) in results:
-        ci = ctx.get("cons") or {}
-        if fmt.startswith("consolidate") and ctx["step"] != "final" and ci.get("threads", 0) >= 1 and ci.get("unviewable"):
+    cons_infos = log.pop()[1]
+    # known silent-corruption / unsupported configurations are outside the correspondence (the oracle still judges them):
+    # worker threads (failures swallowed or raised where the single-thread path copies), the use_buffer storage
+    for ci in cons_infos:
+        if ci["threads"] >= 1 and (ci["unviewable"] or ci["misaligned16"]):
             modelable = False
-        if ctx["step"] != "final" and ci.get("use_buffer"):
+        if ci["use_buffer"] and ci["effective"]:
             modelable = False
+    file_cons = any(op[0] == "consolidate" and op[1].get("file") for op in case["ops"])
     if modelable:
         storage = storage_of(td)
         m = {"t0": t0, "ops": mops, "outcomes": [oc == "ok" for (_, oc) in log], "final": obs(td), "views": impl_views(td, storage),
@@ -707,7 +729,8 @@ def exec_case(case, plan):
                 mode = opt.get("mode")
                 if fmt == "dict" and mode in ("bs", "any"):
                     m["dict"] = [to_model(td, storage), list(td.batch_size), after]
-                if fmt == "pytree":
+                if fmt == "pytree" and not file_cons:
+                    # (after consolidate(filename) the non-tensor entries keep device None inside a cpu tensordict: D114)
                     m["pytree"] = [to_model(td, storage), after]
                 if fmt == "state_dict" and mode in ("like", "pickled"):
                     tgt = to_model(I.zero_target(td, reset_bs=True))
@@ -804,10 +827,23 @@ def compare_model(R, recs):
                 continue
             else:
                 mo = model_obs(res[1])
-                car = FULL
+                # (names are not carried by a state dict; what the freshly built target shows is not compared)
+                car = FULL - {"names"} if kind == "state_dict" else FULL
             d = first_diff(project(after, car), project(mo, car))
             if d:
                 R.mismatch(kind + ":result", case, {"at": d[0], "field": d[1], "impl": d[2]}, {"model": d[3]})
+
+
+def guard(R, label, case, f):
+    """runs a block that touches the code under test; an exception that escapes is reported as an oracle failure"""
+    try:
+        return f()
+    except Exception as e:  # noqa: BLE001
+        import traceback
+        where = traceback.format_exc().strip().split("\n")[-3].strip()[:160]
+        R.oracle_fail(label + ":unexpected-exception", case, {"exception": type(e).__name__ + ": " + str(e)[:200], "where": where},
+                      {"call": label, "kind": "crash", "pattern": "unexplained"})
+        return None
 
 
 # ------------------------------------------------------------------ layout grid: _reduce_vals_and_metadata / storage / decoder
@@ -827,15 +863,11 @@ def layout_grid(R, maxlen, sample):
         rest = [s for s in seqs if len(s) > 2]
         seqs = head + R.rng.sample(rest, min(len(rest), max(0, sample - len(head))))
     lines, meta = [], []
-    for seq in seqs:
-        tree = {"bs": [], "names": None, "dev": None,
-                "ents": [[f"k{i}", ["t", dt, sh, "plain", 3 * i + 1]] for i, (e, dt, sh) in enumerate(seq)]}
-        case = {"tree": tree, "ops": [], "format": "layout-grid"}
-        td = I.build(tree)
+
+    def one(seq, case):
+        td = I.build(case["tree"])
         leaves = [td.get(f"k{i}") for i in range(len(seq))]
         mis = misaligned16(td)
-        R.case(("grid", json.dumps(seq)), nontrivial=len(seq) > 0, sample=case if len(seq) == 3 and len(R.samples) < 2 else None)
-        R.count("grid:len%d" % len(seq))
         r = call(lambda: td.consolidate(metadata=True))
         if r[0] != "ok":
             sig = {"call": "consolidate", "kind": "raises", "pattern": "elsize16-misaligned" if mis and "must be divisible by 16" in r[1] else "unexplained"}
@@ -843,16 +875,29 @@ def layout_grid(R, maxlen, sample):
             impl = ("raise",)
         else:
             c = r[1]
-            recs, _ = meta_records(c._consolidated["metadata"])
-            impl = ("ok", [recs["/k%d" % i][2:] for i in range(len(seq))], c._consolidated["storage"].tolist(),
-                    [I.leaf_bytes(c.get(f"k{i}")) for i in range(len(seq))])
-            # oracle: content equal, and the pickled copy equal
+            # oracle first: content equal, and the pickled copy equal
             d = first_diff(obs(td), obs(c))
             if d:
-                R.oracle_fail("consolidate:" + d[1], case, {"field": d[1], "at": d[0]}, {"call": "consolidate", "pattern": "unexplained", "field": d[1]})
+                R.oracle_fail("consolidate:" + d[1], case, {"field": d[1], "at": d[0], "serialised": d[2], "restored": d[3]},
+                              {"call": "consolidate", "pattern": "unexplained", "field": d[1]})
             rp = call(lambda: obs(pickle.loads(pickle.dumps(c))))
             if rp[0] != "ok" or first_diff(obs(c), rp[1]):
                 R.oracle_fail("pickle:grid", case, {"result": str(rp)[:200]}, {"call": "pickle", "pattern": "unexplained"})
+            recs, _ = meta_records(c._consolidated["metadata"])
+            impl = ("ok", [recs["/k%d" % i][2:] for i in range(len(seq))], c._consolidated["storage"].tolist(),
+                    [I.leaf_bytes(c.get(f"k{i}")) for i in range(len(seq))])
+        return impl, leaves
+
+    for seq in seqs:
+        tree = {"bs": [], "names": None, "dev": None,
+                "ents": [[f"k{i}", ["t", dt, sh, "plain", 3 * i + 1]] for i, (e, dt, sh) in enumerate(seq)]}
+        case = {"tree": tree, "ops": [], "format": "layout-grid"}
+        R.case(("grid", json.dumps(seq)), nontrivial=len(seq) > 0, sample=case if len(seq) == 3 and len(R.samples) < 2 else None)
+        R.count("grid:len%d" % len(seq))
+        got = guard(R, "consolidate", case, lambda: one(seq, case))
+        if got is None:
+            continue
+        impl, leaves = got
         lines.append(sx([Sym("layout"), True, [[e, sh] for (e, dt, sh) in seq]]))
         lines.append(sx([Sym("encode"), True, [leaf_sx(v) for v in leaves]]))
         meta.append((case, seq, impl, leaves))
@@ -922,8 +967,10 @@ def reserved_keys(R):
                 else ["t", "int32", [2], "plain", 9]
             tree = {"bs": [2], "names": None, "dev": None, "ents": [["b", ["t", "uint8", [2, 3], "plain", 1]], [key, ent]]}
             case = {"tree": tree, "ops": [["consolidate", {}]], "format": "pickle", "opt": {}, "step": "final"}
-            td = I.build(tree).consolidate()
-            before = obs(td)
+            pre = guard(R, "consolidate", case, lambda: (lambda td: (td, obs(td)))(I.build(tree).consolidate()))
+            if pre is None:
+                continue
+            td, before = pre
             r = call(lambda: obs(pickle.loads(pickle.dumps(td))))
             R.case(("reserved", key, where), nontrivial=True)
             R.count("reserved-key")
@@ -960,8 +1007,10 @@ def _child_loop(qin, qout):
             continue
         if item is None:
             return
-        tag, td = item
+        tag, buf = item
         try:
+            from multiprocessing.reduction import ForkingPickler
+            td = ForkingPickler.loads(buf)
             qout.put((tag, "ok", obs(td)))
         except Exception as e:  # noqa: BLE001
             qout.put((tag, "raise", type(e).__name__ + ": " + str(e)[:120]))
@@ -972,12 +1021,13 @@ def cross_process(R, n):
     reducer registered by tensordict._reductions), observed there"""
     import multiprocessing as mp
     import multiprocessing.spawn as sp
+    from multiprocessing.reduction import ForkingPickler
     cases = []
     tries = 0
     while len(cases) < n and tries < 20 * n:
         tries += 1
-        c = gen_case(R.rng, kinds=("nt",))
-        if any(op[0] == "consolidate" and (op[1].get("file") or op[1].get("inplace")) for op in c["ops"]):
+        c = guard(R, "history", {"tree": None, "ops": [], "format": "pickle"}, lambda: gen_case(R.rng, kinds=("nt",)))
+        if c is None or any(op[0] == "consolidate" and (op[1].get("file") or op[1].get("inplace")) for op in c["ops"]):
             continue
         cases.append(c)
     orig = sp.get_preparation_data
@@ -999,33 +1049,26 @@ def cross_process(R, n):
             sp.get_preparation_data = orig
         try:
             for ci, case in enumerate(cases):
-                with Scratch() as scratch:
-                    got = {}
+                full = dict(case, format="pickle", opt={"process": method}, step="final")
 
-                    def on_result(fmt, opt, before, outcome, after, ctx_, obj):
-                        pass
-                    td, log = run_case(case, [], on_result)
+                def one():
+                    td, log = run_case(case, [], lambda *a: None)
+                    _, _, last, ci_info = log.pop()
                     before = obs(td)
-                    last = max([i for i, (op, oc) in enumerate(log) if op[0] == "consolidate" and oc == "ok"], default=None)
                     post = log[last + 1:] if last is not None else []
-                    ci_info = None
-                    if last is not None:
-                        # facts of the consolidation, recomputed on a fresh run up to that step
-                        td2 = I.build(case["tree"])
-                        for (op, oc) in log[:last]:
-                            td2, _ = I.apply_op(td2, op, scratch)
-                        ci_info = cons_info(td2, log[last][0][1])
-                    try:
-                        qin.put((ci, td))
-                        tag, outcome, after = qout.get(timeout=120)
-                    except Exception as e:  # noqa: BLE001
-                        outcome, after = "raise", "transport: " + type(e).__name__ + ": " + str(e)[:100]
-                    full = dict(case, format="pickle", opt={"process": method}, step="final")
                     ctx_ = {"step": "final", "consolidated": td.is_consolidated(), "already_consolidated": td.is_consolidated(),
                             "post_ops": post, "cons": ci_info, "meta_misaligned16": meta_misaligned16(td)}
+                    try:
+                        buf = bytes(ForkingPickler.dumps(td))   # what Queue.put does in its feeder thread
+                        qin.put((ci, buf))
+                        tag, outcome, after = qout.get(timeout=90)
+                    except Exception as e:  # noqa: BLE001
+                        outcome, after = "raise", type(e).__name__ + ": " + str(e)[:100]
                     R.case(("xproc", method, json.dumps(case, sort_keys=True)), nontrivial=bool(before["ents"]))
                     R.count("format:pickle-" + method)
                     judge(R, full, "pickle", {"process": method}, before, outcome, after, ctx_)
+                    return True
+                guard(R, "pickle", full, one)
         finally:
             try:
                 qin.put(None)
@@ -1044,14 +1087,25 @@ def _work(args):
     rng = random.Random(seed)
     out = []
     for _ in range(n):
-        case = gen_case(rng)
-        out.append(exec_case(case, fmt_plan(rng, True)))
+        case = None
+        try:
+            case = gen_case(rng)
+            out.append(exec_case(case, fmt_plan(rng, True)))
+        except Exception as e:  # noqa: BLE001 -- an exception escaping the guarded calls is an observation too
+            import traceback
+            out.append({"case": case or {"tree": None, "ops": [], "profile": "crash"}, "results": [], "model": None,
+                        "crash": type(e).__name__ + ": " + str(e)[:200] + " @ " + traceback.format_exc().strip().split("\n")[-3].strip()[:160]})
     return out
 
 
 def consume(R, recs):
     for rec in recs:
         case = rec["case"]
+        if rec.get("crash"):
+            R.case(("crash", json.dumps(case, sort_keys=True, default=str)), nontrivial=True)
+            R.oracle_fail("history:unexpected-exception", {"tree": case.get("tree"), "ops": case.get("ops"), "format": "pickle"},
+                          {"exception": rec["crash"]}, {"call": "history", "kind": "crash", "pattern": "unexplained"})
+            continue
         R.count("profile:" + case["profile"])
         for op in case["ops"]:
             R.count("op:" + op[0])
